@@ -99,6 +99,47 @@ def case_of_case(t):
     return t
 
 
+def decide_literals(t, depth=0):
+    """decisions on literal constructors taken (bottom-up): `match <ctor> { .. }` is its matching arm, `if let P = <ctor>` is decided, a
+    projection through the decided value is reduced.  For terms specialised on a concrete input after they were evaluated on a parameter."""
+    if not isinstance(t, tuple) or not t or depth > 60:
+        return t
+    if t[0] == "closure":
+        return t
+    t = tuple(decide_literals(x, depth + 1) if isinstance(x, tuple) else x for x in t)
+    if t[0] == "match" and len(t) == 3 and isinstance(t[2], tuple) and isinstance(t[1], tuple) and t[1][:1] == ("ctor",):
+        for arm in t[2]:
+            r = pat_tests(t[1], parse_pat(arm[0]))
+            if r is False:
+                continue
+            if r == [] and len(arm) == 2:
+                return decide_literals(norm(arm[-1]), depth + 1)
+            break
+        return t
+    if t[0] == "iflet" and len(t) == 3 and isinstance(t[2], tuple) and t[2][:1] == ("ctor",):
+        r = pat_tests(t[2], parse_pat(t[1]))
+        if r == []:
+            return ("lit", True)
+        if r is False:
+            return ("lit", False)
+        return t
+    if t[0] == "if" and len(t) == 4:
+        dv = sym.decide_bool(t[1])
+        if dv is not None:
+            return t[2] if dv else t[3]
+        return t
+    if t[0] == "phi" and len(t) == 3 and t[1][:1] == ("if",):
+        dv = sym.decide_bool(t[1][1])
+        if dv is not None:
+            for lab, v in t[2]:
+                if (lab == "then") == dv:
+                    return v
+        return t
+    if t[0] == "proj":
+        return norm(t)
+    return t
+
+
 def _is_cond(x):
     return isinstance(x, tuple) and x and ((x[0] == "if" and len(x) == 4) or (x[0] == "match" and len(x) == 3 and isinstance(x[2], tuple)) or (x[0] == "phi" and len(x) == 3))
 
